@@ -102,7 +102,7 @@ impl Property for P {
     }
     fn cases(tier: Tier) -> u64 {
         match tier {
-            Tier::Quick => 30_000,
+            Tier::Quick => 150_000,
             Tier::Thorough => 1_500_000,
         }
     }
